@@ -388,9 +388,20 @@ fn gen_pieces(rng: &mut Rng, len: usize, cfg: &GenCfg, first: bool, st: &mut Gen
             PathMix::AddOnly => Path::AddLoop,
             PathMix::All => {
                 if i == 0 && first {
-                    rng.pick(&[Path::AddLoop, Path::ExtendVal, Path::ExtendRef, Path::CollectVal, Path::CollectRef, Path::DefaultCtor])
+                    rng.pick(&[
+                        Path::AddLoop,
+                        Path::ExtendVal,
+                        Path::ExtendRef,
+                        Path::CollectVal,
+                        Path::CollectRef,
+                        Path::DefaultCtor,
+                        Path::CollectValLazy,
+                        Path::CollectRefLazy,
+                        Path::ExtendValLazy,
+                        Path::ExtendRefLazy,
+                    ])
                 } else {
-                    rng.pick(&[Path::AddLoop, Path::ExtendVal, Path::ExtendRef])
+                    rng.pick(&[Path::AddLoop, Path::ExtendVal, Path::ExtendRef, Path::ExtendValLazy, Path::ExtendRefLazy])
                 }
             }
             PathMix::WithFromValue => {
